@@ -144,8 +144,10 @@ let run_case (s : Sexp.t) : string =
       | t -> t in
     (match tail rest with
      | count :: vs ->
-       (* values are listed in push order; the model's stack has its top at the head *)
-       let stack = List.rev (List.map value_of vs) in
+       (* values are listed in push order; the model's stack has its top at the head. The harness
+          runs the instructions as the entry function of a process, whose stack starts with the nil
+          argument (spawn_process pushes it). *)
+       let stack = List.rev (List.map value_of vs) @ [nil_value] in
        (match handle_equal p (nat_of_int (int_of_string (Sexp.atom count))) stack with
         | Val (top :: _) -> "(ok " ^ dump_evalue (erase p top) ^ ")"
         | Val [] -> "(ok-empty)"
